@@ -99,8 +99,44 @@ pub fn gen(rng: &mut Prng, plan: &mut Plan) {
     let nsteps = rng.range(1, 5);
     for _ in 0..nsteps {
         let kind = rng.below(4).min(2); // 0 sqrt, 1 cbrt, 2 nth (twice as likely)
-        // (a 'huge degree' regime - n >= 4096, x >= 50 kbit - costs ~20 s per call and is outside the envelope)
-        let huge = false;
+        // 'deep degree' regime: n in 1500..4600 with a root of 2..14 bits (x up to 60 kbit). This is where the
+        // descending Newton loop converges linearly (one unit per round while the estimate is below n), i.e. the
+        // only place where thousands of fix-point rounds happen. One call costs up to ~1.5 s in the debug harness (the replay watchdog is 6 s), so only one plan in
+        // 509 (quick) / 4093 (thorough; primes, so that the strided workers share them) is of this kind, and it has a single step.
+        let huge = kind == 2 && plan.steps.is_empty() && plan.index % (if thorough { 4093 } else { 509 }) == 3;
+        if huge {
+            let rbits = rng.range(2, 14);
+            let mut r = (1u64 << (rbits - 1)) | (rng.next_u64() & ((1u64 << (rbits - 1)) - 1));
+            if rng.chance(1, 2) {
+                // lower part of the binade: farthest from the bit-size starting point 2^rbits
+                r = (1u64 << (rbits - 1)) + (r & ((1u64 << (rbits - 1)) - 1)) / 4;
+            }
+            let n = rng.range(1500, (60_000 / rbits).min(4600)) as u32;
+            let rr = RefNat::from_u128(r as u128);
+            let pw = rr.pow(n);
+            let x = match rng.below(4) {
+                0 => pw,
+                1 => pw.sub(&RefNat::one()).unwrap_or(RefNat::one()),
+                2 => pw.add_small(1),
+                _ => pw.add(&rr.pow(n - 1)),
+            };
+            let api = rng.below(2);
+            let neg = api == 1 && rng.chance(1, 3);
+            // (the perturbed call doubles the cost: only where the number of rounds, bounded by 2^rbits, is small)
+            let gm = if rbits >= 12 || rng.chance(1, 2) { hook::GUESS_IDENTITY } else { hook::GUESS_NO_FLOAT };
+            plan.steps.push(
+                Step::new("root")
+                    .i("api", api as i128)
+                    .i("neg", neg as i128)
+                    .i("kind", 2)
+                    .i("n", n as i128)
+                    .i("gm", gm as i128)
+                    .i("gp", 0)
+                    .s("regime", "deep_degree")
+                    .l32("x", &x.0),
+            );
+            break;
+        }
         let mut n: u32 = match kind {
             0 => 2,
             1 => 3,
@@ -311,6 +347,13 @@ pub fn exec(plan: &Plan) -> RunResult {
             res.reach_n("fixpoint_iterations_after_fault", iters);
             if iters > 8 * deg as u64 + 128 {
                 res.reach("iteration_count_above_8n_plus_128");
+            }
+        }
+        if s.str("regime") == "deep_degree" {
+            res.reach("deep_degree_call");
+            res.reach_n("deep_degree_fixpoint_rounds", iters_base);
+            if iters_base > 2048 {
+                res.reach("deep_degree_call_above_2048_rounds");
             }
         }
         if used_float {
